@@ -484,6 +484,11 @@ fn expr(e: &syn::Expr) -> String {
     },
     syn::Expr::Reference(r) => expr(&r.expr),
     syn::Expr::Paren(p) => expr(&p.expr),
+    // `e?`: match e { Ok(v) => v, Err(x) => return Err(From::from(x)) }
+    syn::Expr::Try(t) => format!(
+      "EMatch ({}) [(PCtor \"Ok\" [\"__ok\"], EVar \"__ok\"); (PCtor \"Err\" [\"__err\"], EBlock (Blk [SReturn (Some (ECall \"Err\" [ECall \"From::from\" [EVar \"__err\"]]))] None))]",
+      expr(&t.expr)
+    ),
     syn::Expr::Group(g) => expr(&g.expr),
     syn::Expr::Cast(c) => format!(
       "ECall {} [{}]",
